@@ -4,5 +4,6 @@
 //@include units/vf_helpers.rs
 //@include units/arrival_basic.rs
 //@include units/wcet.rs
+//@include units/wcet_cache.rs
 //@include units/demand.rs
 fn main() {}
